@@ -49,6 +49,11 @@ func (a *AndStrategy) Compute(snapshots <-chan *asset.Snapshot) <-chan Action {
 		for {
 			buy, _, sell, ok := CountActions(sources)
 			if !ok {
+				// Drain the remaining sources so that they can finish.
+				for _, source := range sources {
+					go helper.Drain(source)
+				}
+
 				break
 			}
 
